@@ -5,3 +5,4 @@ open Biogo.Properties.C13_history
 #print axioms surfaceStatement_sound
 #print axioms history_autoclean_drain_removes_dir
 #print axioms history_autoclear_drain_no_runs
+#print axioms history_rejected_push_noop
